@@ -988,6 +988,31 @@ def pattern_mix_cases(prog, taint_mode="concrete"):
             yield lambda kv=kv, sp=sp: case_setitem(prog, A, kv, "number", "letter", sp, taint_mode)
 
 
+def case_fill_then_write(prog, A, taint_mode="abort"):
+    """history: x[...] = 2 (a whole number) fills the array; a later x[{d: item}] = k stores k itself - the array is still an array of reals"""
+    w = World(prog, taint_mode)
+    case = Case("setitem", "__setitem__", "FlodymArray.__setitem__", {"op": "x[...] = 2; x[{d: item}] = k", "x_dims": list(A)})
+    x = w.array("x", A)
+    k0, _ = run_guarded(lambda: w.it.call_method(x, "__setitem__", Ellipsis, 2))
+    if k0 != "ok":
+        case.v("result", False, f"x[...] = 2 ended with {k0}")
+        return finish(case, w)
+    item = w.items(A[0])[1]
+    snaps = w.snap(x)
+    kind, r = run_guarded(lambda: w.it.call_method(x, "__setitem__", {A[0]: item}, SymScalar(("sym", "k"))))
+    exp = ("upd", ("k", 2), ((universe_of(w, A[0]), ("c", item)),), ("sym", "k"))
+    if kind != "ok":
+        case.v("result", False, f"the second assignment ended with {kind}: {describe(r, w)}")
+    else:
+        judge_array(case, w, "ok", x, tuple(A), full_axes(w, A), exp, what="target after x[...] = 2; x[{d: item}] = k")
+    common_checks(case, w, [x], snaps, kind, r, inplace_target=x)
+    return finish(case, w)
+
+
+def universe_of(w, letter):
+    return NP.universe(w.items(letter)[0])
+
+
 def case_write_unknown_in_list(prog, A, taint_mode="abort"):
     """x[{d: [known, unknown]}] = k must be refused (and leave x as it was)"""
     w = World(prog, taint_mode)
@@ -1002,6 +1027,8 @@ def case_write_unknown_in_list(prog, A, taint_mode="abort"):
 
 
 def misc_index_cases(prog, taint_mode="abort"):
+    for A in [("a",), ("b", "a")]:
+        yield lambda A=A: case_fill_then_write(prog, A, taint_mode)
     # several items of one dimension given as something other than a list
     for A, kv in [(("a",), ("list",)), (("b", "a"), ("absent", "list")), (("b", "a"), ("list", "single")), (("a", "b", "c"), ("single", "list", "absent"))]:
         for form in ("tuple", "keys-view"):
